@@ -230,9 +230,20 @@ def flow_safety_threshold(prog: Program, rep, RID: str):
     # nested readers `def upper(u, v): value = G.edges[u, v][upperbound_attr]; return <value as a Python number>` stand for the subscript
     readers = {}
     for fd in [n for n in ast.walk(f.node) if isinstance(n, ast.FunctionDef) and n is not f.node and len(n.args.args) == 2]:
-        first = fd.body[0] if fd.body else None
-        if isinstance(first, ast.Assign) and isinstance(first.value, ast.Subscript) and norm(first.value.value) == f"G.edges[{fd.args.args[0].arg}, {fd.args.args[1].arg}]":
-            readers[fd.name] = norm(first.value.slice)
+        # a reader: every return value is G.edges[p0, p1][A], possibly as `.item()` of it (one attribute A)
+        fdefs = all_local_defs(fd)
+        attrs = set()
+        rets_ = [r for r in ast.walk(fd) if isinstance(r, ast.Return) and r.value is not None]
+        for r in rets_:
+            v = _PlainNumber().visit(ast.parse(norm(substitute_locals(r.value, fdefs)), mode="eval").body)
+            if isinstance(v, ast.Call) and isinstance(v.func, ast.Attribute) and v.func.attr == "item" and not v.args:
+                v = v.func.value
+            if isinstance(v, ast.Subscript) and norm(v.value) == f"G.edges[{fd.args.args[0].arg}, {fd.args.args[1].arg}]":
+                attrs.add(norm(v.slice))
+            else:
+                attrs.add(None)
+        if rets_ and len(attrs) == 1 and None not in attrs:
+            readers[fd.name] = attrs.pop()
 
     class _Readers(ast.NodeTransformer):
         def visit_Call(self, node):
